@@ -145,7 +145,7 @@ func runC06(c *core.Ctx) {
 	})
 	c.Count("wide_deep_and_misplaced_constructs", int64(len(wide)))
 	// constant positions, the small-scope type systems and the scale family, as texts to parse
-	extra := append(ConstSites(), schemaSmallScope()...)
+	extra := append(append(ConstSites(), schemaSmallScope()...), NonTokenPlacements(true)...)
 	extra = append(extra, ScaleSchemasUpTo(300, 4097)...)
 	c.Pool.ParFor(len(extra), func(w, i int) {
 		c.CheckCase(w, "ps", thm, []byte("1"), []byte("0"), []byte("0"), []byte(extra[i]))
@@ -216,6 +216,32 @@ func ConstSitesQuery() []string {
 	for _, st := range sites {
 		for _, v := range vals {
 			out = append(out, strings.ReplaceAll(st, "%s", v))
+		}
+	}
+	return out
+}
+
+// NonTokenPlacements: text that is not a token (a stray character, an unterminated string or block
+// string, a malformed number, an invalid escape, a lone dot) at the start of a document, after a complete
+// definition, between two definitions and inside a definition: acceptance is a statement about strings,
+// and what the lexer refuses the parser must refuse wherever it stands.
+func NonTokenPlacements(schema bool) []string {
+	bad := []string{"~", "?", "'", "\x01", "0x1", "1.", "01", "1e", "-", ".", "..", "\"abc", "\"\\q\"", "\"\\u12\"", "\"\"\"abc", "\"a\nb\"", "%", "^", "`", "\\", "\xff", "\u00e9", "#c\n~"}
+	defs := []string{"query A {a}", "{a}", "fragment F on T {c}", "mutation {a(x: 1)}"}
+	if schema {
+		defs = []string{"scalar A", "type Q { f: Int }", "\"d\" enum E { A }", "extend type Q @d", "directive @d on FIELD", "schema { query: Q }"}
+	}
+	var out []string
+	for _, g := range bad {
+		out = append(out, g, g+" "+defs[0])
+		for _, d1 := range defs {
+			out = append(out, d1+" "+g, d1+g)
+			for _, d2 := range defs[:2] {
+				out = append(out, d1+" "+g+" "+d2)
+			}
+			if k := strings.LastIndex(d1, "}"); k > 0 {
+				out = append(out, d1[:k]+" "+g+" "+d1[k:])
+			}
 		}
 	}
 	return out
